@@ -223,6 +223,41 @@ namespace svmon
         if (! m.empty ()) ok = ok && value_of (cv.front ()) == m.front () && value_of (cv.back ()) == m.back ();
         if (! ok)
           violate ("C01", "model.read-paths", "v%d: range-for / operator[] / at / data() / reverse iteration / front / back disagree with the model", slot);
+        // iterator algebra (the random-access requirements a std::vector user relies on): every way of reaching
+        // position k names data() + k; differences, relations and mixed iterator/const_iterator comparisons agree with indices
+        {
+          typedef typename V::iterator It; typedef typename V::const_iterator CIt; typedef typename V::difference_type D;
+          const D n = static_cast<D> (m.size ());
+          It b = v.begin (), e = v.end ();
+          CIt cb = cv.begin (), ce = cv.cend ();
+          bool iok = (e - b) == n && (ce - cb) == n && (b == cb) && (cb == b) && ! (b != cb) && (e == ce) && It () == It () && CIt () == CIt ();
+          const D ks[3] = { 0, n / 2, n > 0 ? n - 1 : 0 };
+          for (int q = 0; q < 3 && n > 0; ++q)
+          {
+            const D k = ks[q];
+            const auto *want = cv.data () + k;
+            It a = b; a += k;
+            It p = b + k, r = k + b, s = e - (n - k);
+            It t = e; t -= (n - k);
+            It u = b; for (D j = 0; j < k; ++j) { It old = u++; iok = iok && std::addressof (*old) == cv.data () + j; }
+            It w = e; for (D j = n; j > k; --j) { It old = w--; iok = iok && (old - b) == j; }
+            CIt cp = p;                          // iterator -> const_iterator conversion
+            iok = iok && std::addressof (*a) == want && std::addressof (*p) == want && std::addressof (*r) == want && std::addressof (*s) == want
+                  && std::addressof (*t) == want && std::addressof (*u) == want && std::addressof (*w) == want && std::addressof (*cp) == want
+                  && std::addressof (b[k]) == want && std::addressof (cb[k]) == want && p.operator-> () == want
+                  && (p - b) == k && (b - p) == -k && (cp - cb) == k && (e - p) == n - k
+                  && (p < e) && (p <= e) && (e > p) && (e >= p) && ! (e < p) && (b <= p) && (p >= b) && (k == 0 ? ! (b < p) : (b < p))
+                  && (cp < ce) && (cp <= p) && (p <= cp) && (cp >= p) && ! (cp < p) && ! (p > cp) && (cp == p) && ! (cp != p);
+            It pre = p; ++pre; --pre;
+            iok = iok && pre == p;
+#if defined (__cpp_impl_three_way_comparison) && __cpp_impl_three_way_comparison >= 201907L
+            iok = iok && ((p <=> e) < 0) && ((e <=> p) > 0) && ((p <=> cp) == 0);
+#endif
+          }
+          if (! iok)
+            violate ("C01", "model.iterator-algebra", "v%d: iterator arithmetic / comparison / dereference disagrees with data() + index (size %zu)", slot, m.size ());
+          COV ().count ("c01.iterator-algebra-checks");
+        }
         // at() beyond size must throw out_of_range
         bool threw = false;
         try { (void) cv.at (static_cast<typename V::size_type> (m.size ())); }
@@ -748,6 +783,12 @@ namespace svmon
     void run_random_history (uint64_t seed, int length)
     {
       Rng rng (seed);
+      run_history (rng, length);
+    }
+
+    // history drawn from `rng` (a PRNG, or the bytes of a fuzzer input: stops when they are used up)
+    void run_history (Rng& rng, int length)
+    {
       reset_pool ();
       op_index = 0;
       hist_allocs_base = LEDGER ().allocs;
@@ -767,11 +808,17 @@ namespace svmon
           }
       mstring sample;
       for (size_t i = 0; i < prefix.size (); ++i) exec (prefix[i]);
-      for (int i = 0; i < length; ++i)
+      for (int i = 0; i < length && ! rng.exhausted (); ++i)
       {
         snap_all (cur);
         Op op = gen_op (rng, cur, next_val);
         if (sample.size () < 300) { Internal in; sample += op_describe (op); sample += "; "; }
+        if (rng.fed () && G ().verbose_trace)
+        {
+          Internal in;
+          std::fprintf (G ().out, "{\"type\":\"op\",\"i\":%d,\"enc\":\"%s\",\"desc\":\"%s\"}\n", i, op_encode (op).c_str (), json_escape (op_describe (op)).c_str ());
+          std::fflush (G ().out);
+        }
         exec (op);
       }
       { Internal in; COV ().sample (sample); }
